@@ -107,10 +107,14 @@ func c14RtMultisetEq(a, b [][]byte) bool {
 }
 
 func c14RtRecv(app *net.UDPConn, d time.Duration) []byte {
+	if !c01RtPatience {
+		d = 200 * time.Millisecond
+	}
 	buf := make([]byte, 70000)
 	app.SetReadDeadline(time.Now().Add(d))
 	n, err := app.Read(buf)
 	if err != nil {
+		c01RtPatience = false
 		return nil
 	}
 	return buf[:n]
@@ -141,6 +145,7 @@ func c14RtDescribe(got, want []byte, other []byte) string {
 func c14RtUDP2(fs []string) string {
 	atoi := func(s string) int { n, _ := strconv.Atoi(s); return n }
 	lenA, lenB, nup, park := atoi(fs[2]), atoi(fs[3]), atoi(fs[4]), atoi(fs[5]) == 1
+	c01RtPatience = true
 	clientSesh, serverSesh := c01RtPair(true)
 	defer clientSesh.Close()
 	defer serverSesh.Close()
@@ -176,10 +181,10 @@ func c14RtUDP2(fs []string) string {
 		}
 		if k == 0 {
 			// the first datagram of each application opens its stream
-			c01RtWait(func() bool { s, _ := far.count(); return s >= 2 }, 3*time.Second)
+			c01RtWait(func() bool { s, _ := far.count(); return s >= 2 }, 20*time.Second)
 		}
 	}
-	c01RtWait(func() bool { _, n := far.count(); return n >= 2*nup }, 3*time.Second)
+	c01RtWait(func() bool { _, n := far.count(); return n >= 2*nup }, 20*time.Second)
 	// ---- mapping: a token down each far-end stream
 	far.mu.Lock()
 	streams := append([]*c14RtFarStream(nil), far.streams...)
@@ -192,7 +197,7 @@ func c14RtUDP2(fs []string) string {
 	}
 	var mine [2]*c14RtFarStream
 	for i := range apps {
-		tok := c14RtRecv(apps[i], 3*time.Second)
+		tok := c14RtRecv(apps[i], 20*time.Second)
 		for _, s := range streams {
 			if bytes.Equal(tok, s.token) {
 				mine[i] = s
@@ -254,7 +259,7 @@ func c14RtUDP2(fs []string) string {
 		}
 	}
 	mine[1].st.Write(ansB)
-	gotB := c14RtRecv(apps[1], 3*time.Second)
+	gotB := c14RtRecv(apps[1], 20*time.Second)
 	if parked {
 		state = "D"
 		if gotB == nil {
@@ -262,7 +267,7 @@ func c14RtUDP2(fs []string) string {
 		}
 	}
 	close(release) // a relay goroutine arriving late at the schedule point passes straight through
-	gotA := c14RtRecv(apps[0], 3*time.Second)
+	gotA := c14RtRecv(apps[0], 20*time.Second)
 	return fmt.Sprintf("%s state=%s upA=%s upB=%s downA=%s downB=%s pairs=%d", fs[0], state, up[0], up[1],
 		c14RtDescribe(gotA, ansA, ansB), c14RtDescribe(gotB, ansB, ansA), nup)
 }
